@@ -264,6 +264,42 @@ theorem isAssigned_setAsg (s : St) (q pid : Nat) (b : Bool) (q' pid' : Nat) :
         simp [this]
       · simp [h1]
 
+/-! ### refreshPodIfPresent / getCachedPod (fix 7265fb2) -/
+
+@[simp] theorem refreshE_known (s : St) (q : Nat) (p : PodObj) : (refreshE s q p).known = s.known := rfl
+@[simp] theorem refreshE_store (s : St) (q : Nat) (p : PodObj) : (refreshE s q p).store = s.store := rfl
+@[simp] theorem refreshE_req (s : St) (q : Nat) (p : PodObj) : (refreshE s q p).req = s.req := rfl
+@[simp] theorem refreshE_used (s : St) (q : Nat) (p : PodObj) : (refreshE s q p).used = s.used := rfl
+
+theorem hasE_refreshE (s : St) (q : Nat) (p : PodObj) (q' pid' : Nat) :
+    hasE (refreshE s q p) q' pid' = hasE s q' pid' := by
+  simp only [hasE, refreshE, List.any_map]
+  congr 1
+  funext e
+  simp only [Function.comp]
+  split <;> rfl
+
+theorem isAssigned_refreshE (s : St) (q : Nat) (p : PodObj) (q' pid' : Nat) :
+    isAssigned (refreshE s q p) q' pid' = isAssigned s q' pid' := by
+  simp only [isAssigned, refreshE, List.any_map]
+  congr 1
+  funext e
+  simp only [Function.comp]
+  split <;> rfl
+
+theorem cachedObj_of_hasE (s : St) (q pid : Nat) (h : hasE s q pid = true) :
+    ∃ e ∈ s.cache, e.q = q ∧ e.pid = pid ∧ cachedObj s q pid = some e.obj := by
+  unfold cachedObj
+  cases hf : s.cache.find? (fun e => e.q == q && e.pid == pid) with
+  | none =>
+    rw [hasE, List.any_eq_true] at h
+    obtain ⟨e, he, hp⟩ := h
+    exact absurd hp (List.find?_eq_none.1 hf e he)
+  | some e =>
+    have hp := List.find?_some hf
+    simp only [Bool.and_eq_true, beq_iff_eq] at hp
+    exact ⟨e, List.mem_of_find?_eq_some hf, hp.1, hp.2, rfl⟩
+
 /-! ### sums -/
 
 def sumBy (l : List PodObj) (f : PodObj → Bool) : Int :=
